@@ -368,6 +368,8 @@ def run(chk, tier):
     if n2 < 40:
         chk.analysis_broken("D2: only %d cmath overloads recognised (floor 40)" % n2)
     fb_rule(chk, db)
+    from ..rules import shift as _SH
+    _SH.check(chk, db, ["_bit/", "_bitset/"], floor=20)      # SHIFT: shift counts stay below the promoted operand width
     chk.assumptions += [
         "a function without a mode switch executes the same abstract-machine code when constant-evaluated and at run time "
         "(correct compiler assumed)",
